@@ -497,12 +497,22 @@ def s6b(ctx, rep):
     """the grid is a product of lists of DISTINCT values: several grid positions of an integer / log-integer range decode
     to the same value, so each per-hyperparameter list is de-duplicated before the product is formed"""
     P = ctx.P
-    f = P.method("GridSearcher", "_generate_all_candidates_on_grid")
+    # the place where the grid is formed - product(*lists) - in whichever method of the searcher; when the lists come back from a method
+    # of the searcher (a, lists = self._m()), that method and the list it returns at that position are what is examined
+    gs = P.cls("GridSearcher")
+    prods = [(m_, x) for m_ in gs.methods.values() for x in walk_shallow(m_.node)
+             if isinstance(x, ast.Call) and fn_name(x) == "product" and x.args and isinstance(argn(x, 0), ast.Starred)]
+    if len(prods) != 1:
+        raise AnchorError("GridSearcher: product(*lists) not found exactly once")
+    f, pcall = prods[0]
+    lv = U(argn(pcall, 0).value)
+    for d in local_defs(f, lv):
+        if isinstance(d, tuple) and d[0] == "unpack" and isinstance(d[1], ast.Call) and isinstance(d[1].func, ast.Attribute) and U(d[1].func.value) == "self":
+            m2 = P.lookup_method(gs, d[1].func.attr)
+            r2 = [r.value for r in returns_of(m2)] if m2 is not None else []
+            if len(r2) == 1 and isinstance(r2[0], ast.Tuple) and d[2] < len(r2[0].elts) and isinstance(r2[0].elts[d[2]], ast.Name):
+                f, lv = m2, r2[0].elts[d[2]].id
     cfg = cfg_of(f)
-    prod = [x for x in walk_shallow(f.node) if isinstance(x, ast.Call) and fn_name(x) == "product" and x.args and isinstance(argn(x, 0), ast.Starred)]
-    if len(prod) != 1:
-        raise AnchorError("GridSearcher._generate_all_candidates_on_grid: product(*lists) not found")
-    lv = U(argn(prod[0], 0).value)
 
     def dedup(e, depth=3):
         """expression whose value has no repeated elements"""
